@@ -32,13 +32,17 @@
 //      acknack.addressee  reader_id / writer_id / INFO_DST of the reply name this reader and the writer whose
 //                         locator the reply was sent to
 //
-// Bound (one writer): alphabet FULL (159 operations) =
+// Bound (one writer): alphabet FULL (168 operations) =
 //     DATA(sn) sn in 1..=5;  UNUSABLE-DATA(sn, variant) sn in 1..=5 = a DATA that cannot be turned into a change
 //     (variant 0: no payload, no flags, no inline QoS; variant 1: payload with D and K flag both set): the model
 //     covers sn (its DATA has arrived, there is nothing to hand over), later samples must flow;
 //     DATA(sn) with an inline QoS whose PID_RELATED_SAMPLE_IDENTITY cannot be parsed, sn in 1..=5: handed over like DATA(sn);
 //     PREEMPT = the timer action Reader::send_preemptive_acknacks(): whatever it emits is held to the same ACKNACK oracle;
 //     GAP(start a, base b, bits subset of {b,b+1}) 1<=a<=b<=6;
+//     GAP-FROM-WIRE (8 forms, b<=3, numBits 1|2): a GAP serialized, all padding bits of its bitmap word set to 1, parsed by
+//     Message::read_from_buffer and handed to the reader: the model counts the numBits valid bits only;
+//     REANNOUNCED: Reader::update_writer_proxy again for the matched writer (SEDP re-send): no-op for the model, so ACKNACK
+//     counts and bases go on growing;
 //     HEARTBEAT(first f, last l, final?) 0<=f<=l+1<=6, l>=0; the HEARTBEAT count is the position in the sequence.
 //   alphabet SMALL (29 operations) = DATA(1..=3); UNUSABLE-DATA(2..=3, variant 0); PREEMPT; GAP with b<=3 and bits subset of {b};
 //     HEARTBEAT(f,3,final?) f in 1..=4 and HEARTBEAT(f,2,false) f in 1..=3.
@@ -99,6 +103,9 @@ mod verif_xc_reader_path {
     Hb(i64, i64, bool), // HEARTBEAT(first_sn, last_sn, final flag)
     Frag(i64, u32),     // DATAFRAG(writer_sn, fragment number) of a 3-fragment sample
     BadQos(i64),        // DATA(writer_sn) with a value and an inline QoS whose PID_RELATED_SAMPLE_IDENTITY is 4 garbage bytes
+    GapWire(i64, i64, u8, u8), // GAP(gap_start, gap_list.base, numBits 1|2, valid bits) serialized, every PADDING bit of the
+                        // bitmap word (positions >= numBits, undefined on the wire) set to 1, and parsed back by the real parser
+    Reannounce,         // Discovery announces the matched writer again: Reader::update_writer_proxy for the same GUID and QoS
     Preempt,            // the reader's periodic timer action Reader::send_preemptive_acknacks()
     Unusable(i64, u8),  // DATA(writer_sn) that cannot be turned into a change: 0 = no payload, no flags, no inline QoS;
                         // 1 = payload with both the D and the K flag set
@@ -116,6 +123,11 @@ mod verif_xc_reader_path {
         Op::Data(s) => write!(f, "w{}:DATA({})", self.w, s),
         Op::BadQos(s) => write!(f, "w{}:DATA({},inline QoS with malformed related_sample_identity)", self.w, s),
         Op::Preempt => write!(f, "PREEMPTIVE-ACKNACK-TIMER"),
+        Op::Reannounce => write!(f, "w{}:REANNOUNCED", self.w),
+        Op::GapWire(a, b, nbits, bits) => {
+          let l: Vec<i64> = (0..nbits as i64).filter(|i| bits & (1 << i) != 0).map(|i| b + i).collect();
+          write!(f, "w{}:GAP-FROM-WIRE(start={},base={},numBits={},list={:?},bitmap word={:#010x})", self.w, a, b, nbits, l, gap_wire_word(nbits, bits))
+        }
         Op::Frag(s, k) => write!(f, "w{}:DATAFRAG(sn={},frag={}/3)", self.w, s, k),
         Op::Unusable(s, v) => write!(f, "w{}:UNUSABLE-DATA({},{})", self.w, s, ["no payload/flags/inline QoS", "D and K flag both set"][v as usize]),
         Op::Gap(a, b, bits) => {
@@ -133,6 +145,10 @@ mod verif_xc_reader_path {
     for s in 1..=5 { for var in 0..2u8 { v.push(Op::Unusable(s, var)); } }
     for s in 1..=5 { v.push(Op::BadQos(s)); }
     v.push(Op::Preempt);
+    v.push(Op::Reannounce);
+    for a in 1..=3 { for b in a..=3 { v.push(Op::GapWire(a, b, 1, 0)); } }
+    v.push(Op::GapWire(2, 2, 1, 1));
+    v.push(Op::GapWire(1, 2, 2, 0b01));
     for a in 1..=6 { for b in a..=6 { for bits in 0..4u8 { v.push(Op::Gap(a, b, bits)); } } }
     for l in 0..=5 { for f in 0..=l + 1 { for fin in [false, true] { v.push(Op::Hb(f, l, fin)); } } }
     v
@@ -191,7 +207,13 @@ mod verif_xc_reader_path {
       match st.op {
         // a parameter of the inline QoS that cannot be parsed does not make the value unusable
         Op::Data(s) | Op::BadQos(s) => { self.sample_arrived(s, step, step); false }
-        Op::Preempt => false,
+        Op::Preempt | Op::Reannounce => false,
+        // only the numBits valid bits of the bitmap count, whatever the padding holds
+        Op::GapWire(a, b, nbits, bits) => {
+          for k in a..b { self.cover(k); }
+          for i in 0..nbits as i64 { if bits & (1 << i) != 0 { self.cover(b + i); } }
+          false
+        }
         // the DATA for s has arrived, but it carries nothing that could be handed over: s is not missing any more
         Op::Unusable(s, _) => { self.cover(s); false }
         Op::Frag(s, f) => {
@@ -264,6 +286,8 @@ mod verif_xc_reader_path {
     guid: GUID,
     mr_state: MessageReceiverState,
     tag: u64,
+    locator: Locator,
+    qos: QosPolicies,
   }
 
   struct Reply {
@@ -372,9 +396,9 @@ mod verif_xc_reader_path {
           EntityId::create_custom_entity_id([1, 1, w as u8 + 1], EntityKind::WRITER_WITH_KEY_USER_DEFINED),
         );
         let locator = Locator::from(self.sockets[w].local_addr().unwrap());
-        reader.matched_writer_add(guid, EntityId::UNKNOWN, vec![locator], vec![], &self.qos);
+        reader.matched_writer_add(guid, EntityId::UNKNOWN, vec![locator.clone()], vec![], &self.qos);
         let mr_state = MessageReceiverState { source_guid_prefix: guid.prefix, ..Default::default() };
-        writers.push(Writer { guid, mr_state, tag });
+        writers.push(Writer { guid, mr_state, tag, locator, qos: self.qos.clone() });
       }
       (reader, keep, writers)
     }
@@ -437,6 +461,11 @@ mod verif_xc_reader_path {
     .into()
   }
   fn sn(i: i64) -> SequenceNumber { SequenceNumber::new(i) }
+  // bitmap word of a GAP-FROM-WIRE: valid bits (MSB first) as chosen, all padding bits 1
+  fn gap_wire_word(nbits: u8, bits: u8) -> u32 {
+    let valid: u32 = (0..nbits as u32).filter(|i| bits & (1 << i) != 0).map(|i| 1u32 << (31 - i)).sum();
+    valid | (u32::MAX >> nbits)
+  }
 
   // Feed one operation of writer `w` to the real reader. Returns what handle_heartbeat_msg claimed.
   fn feed(reader: &mut Reader, w: &Writer, st: &Step, step: usize) -> bool {
@@ -467,6 +496,31 @@ mod verif_xc_reader_path {
         false
       }
       Op::Preempt => { reader.send_preemptive_acknacks(); false }
+      Op::Reannounce => { reader.matched_writer_add(w.guid, EntityId::UNKNOWN, vec![w.locator.clone()], vec![], &w.qos); false }
+      Op::GapWire(a, b, nbits, bits) => {
+        let mut gap_list = SequenceNumberSet::new(sn(b), nbits as u32);
+        for i in 0..nbits as i64 { if bits & (1 << i) != 0 { gap_list.test_insert(sn(b + i)); } }
+        let mut message = Message::new(Header::new(w.guid.prefix));
+        message.add_submessage(
+          Gap { reader_id, writer_id, gap_start: sn(a), gap_list }.create_submessage(BitFlags::from_flag(GAP_Flags::Endianness)).unwrap(),
+        );
+        let mut bytes = message.write_to_vec_with_ctx(Endianness::LittleEndian).unwrap();
+        // the single bitmap word is the last thing in the message: fill its padding bits with ones
+        let at = bytes.len() - 4;
+        let word = u32::from_le_bytes([bytes[at], bytes[at + 1], bytes[at + 2], bytes[at + 3]]);
+        assert!(word | (u32::MAX >> nbits) == gap_wire_word(nbits, bits), "test setup: bitmap word {:#x}", word);
+        bytes[at..].copy_from_slice(&gap_wire_word(nbits, bits).to_le_bytes());
+        let parsed = Message::read_from_buffer(&Bytes::from(bytes)).expect("GAP with garbage in the padding bits is a valid message");
+        let mut fed = false;
+        for sm in parsed.submessages {
+          if let SubmessageBody::Writer(WriterSubmessage::Gap(gap, _)) = sm.body {
+            reader.handle_gap_msg(&gap, &mr_state);
+            fed = true;
+          }
+        }
+        assert!(fed, "test setup: the parsed message has no GAP");
+        false
+      }
       Op::Unusable(s, var) => {
         let data = Data {
           reader_id, writer_id, writer_sn: sn(s),
@@ -697,7 +751,7 @@ mod verif_xc_reader_path {
 
   fn len2_full(rig: &mut Rig) {
     let full = full_alphabet();
-    assert!(full.len() == 159);
+    assert!(full.len() == 168);
     let (mut n, a0, h0) = (0u64, rig.n_acknacks, rig.n_handed);
     for &a in &full {
       run(rig, &w0(&[a]));
